@@ -277,6 +277,9 @@ def set_block(a, ts=(), Ds=None, val='zeros'):
         Otherwise any tensor-like format such as nested list, numpy.ndarray, etc.,
         can be used provided it is supported by :doc:`tensor's backend </tensor/configuration>`.
     """
+    if a.trans != tuple(range(a.ndim_n)):  # ts, Ds and val follow the (logical) order of legs, as in __getitem__ and get_legs
+        b = a.consume_transpose()
+        a._data, a.struct, a.slices, a.hfs, a._trans = b._data, b.struct, b.slices, b.hfs, b.trans
     ts = np.array(ts, dtype=np.int64).ravel()
     if a.isdiag and len(ts) == a.config.sym.NSYM:
         ts = np.hstack([ts, ts])
